@@ -141,7 +141,7 @@ def _interact_harness(c, mode, k=2):
     it = Interp(c, policies={S + ":check_element": _ce_summary})
     absent_v = it.models.absent(it)
     # key: None, attribute key or index key (real Key objects; affix_to is executed from its real body)
-    kc = c.choose(3, "key") if mode == "sym" else 0
+    kc = c.choose(4, "key") if mode == "sym" else 0
     if mode != "sym":
         for i in range(k):  # the stand-in fixes trigger presence and ties tags to intercept presence (stated in its bound)
             c.assume(h_hast(z3.IntVal(i)))
@@ -150,15 +150,18 @@ def _interact_harness(c, mode, k=2):
         key = None
     elif kc == 1:
         key = it.call(it.get_global(TR, "Key"), ["attr", "y"], {})
-    else:
+    elif kc == 2:
         key = it.call(it.get_global(TR, "Key"), ["index", "k"], {})
+    else:
+        # any object may be an index (a tuple for a grid): the item keeps a name of its own, it is never the container itself
+        key = it.call(it.get_global(TR, "Key"), ["index", (1, 2)], {})
     # shape: a keyed (attribute / item) interaction always carries a real value -- the transformer only emits the ABSENT marker
     # for declarations of plain names (clause visit_AnnAssign/declared-attribute-left-untouched)
     if key is not None:
         c.require(value.t != Val.absent)
     varname = "x"
     full = varname if key is None else it.call(it.getattr(key, "affix_to"), [varname], {})
-    c.prove("affix/attr-index-naming", full == {0: "x", 1: "x.y", 2: "x['k']"}[kc])
+    c.prove("affix/attr-index-naming", full == {0: "x", 1: "x.y", 2: "x['k']", 3: "x[(1, 2)]"}[kc])
     H = Handlers(it, it.to_val(full), cat.t)
     if mode == "sym":
         seq = SymSeq("handlers", n, H.pair)
